@@ -60,8 +60,8 @@ fn sweep_history(mut i: u64) -> Vec<Op> {
     v
 }
 
-fn gen_history(t: &mut Tape, nrings: usize) -> Vec<Op> {
-    let n = t.range(1, 14);
+fn gen_history(t: &mut Tape, nrings: usize, deep: bool) -> Vec<Op> {
+    let n = t.range(1, if deep { 30 } else { 14 });
     let mut v = Vec::new();
     for _ in 0..n {
         let r = t.draw(nrings as u64) as usize;
@@ -146,7 +146,7 @@ fn run_v<V: VringT<GM<()>> + Clone + Send + Sync + 'static>(sim: &Sim, cfg: &Run
         let (hist, key) = if cfg.index < SWEEP {
             (sweep_history(cfg.index), Some(cfg.index))
         } else {
-            (gen_history(t, nrings), None)
+            (gen_history(t, nrings, cfg.tier == Tier::Thorough), None)
         };
         (adapter, masks, nonblock, hist, key)
     });
